@@ -26,6 +26,10 @@ CLAIMS = {
          "Decides: all decoder registers are loaded from and stored back to the persistent state around every call (also in decompress_fast), no other local carries state across loop iterations, and HasMoreOutput overrides NeedsMoreInput exactly when the output window is full outside the trailer read. NOT decided: equality of output across chunkings."),
  "C20": ("compiler verdicts per configuration, rustc_lexer token scan, compile-time witness crate",
          "Full claim: every buildable configuration (8 host feature sets, 2 thumbv7em build-std configurations, x86_64-unknown-none) compiles with an unconditional in-crate #![forbid(unsafe_code)] in force, so rustc itself rejects any unsafe code; a token scan of every source file (including code compiled out everywhere) finds no unsafe / linkage attribute / include; the core-only sysroot builds prove no_std + no allocator; a witness crate instantiates Send + Sync + Clone + 'static for the public state types (with compile_fail twins in the thorough tier)."),
+ "C09": ("finite-domain evaluation of configuration tables, dominance and path tables on MIR",
+         "Decides (substantial): every reachable compressor configuration (3 formats x 11 levels x 5 strategies x 16 window settings, plus clamps and CompressorOxide::new) yields an RFC 1950 valid header; the header is emitted only under the zlib flag at block_index 0 and block_index always advances; the trailer is the four bytes of params.adler32, most significant first, after byte alignment, and nothing follows; the running Adler-32 is updated with exactly the consumed input; the decoder's epilogue returns Done in zlib mode only if the trailer equals the freshly updated checksum (Adler32Mismatch otherwise) unless IGNORE_ADLER32; validate_zlib_header equals the RFC 1950 predicate on all 2^16 pairs. NOT decided: the numeric value of the checksum (delegated to adler2 / simd-adler32)."),
+ "C18": ("field-effect summaries (may/must-write), liveness over the extracted decoder automaton",
+         "Decides: every field the compression data path may write is must-written by CompressorOxide::reset (derived from the fact base, not hand-listed); each InflateState reset policy must-writes every field inflate() may write; after DecompressorOxide::init() no scalar decoder field is read before it is written on any path from State::Start; no mutable statics, hash-randomised containers, clocks, environment or pointer-to-integer casts; mz_deflateReset reaches CompressorOxide::reset. NOT decided: byte-identical output after reset for all histories; prefix-written decoder arrays are outside the scalar liveness. Known finding KF-5 (MinReset leaves the window)."),
  "C12": ("path tables and must-write effects on MIR",
          "Decides: the bit sequence of every flush marker equals the RFC 1951 empty stored / empty fixed block, with the *Opt forms only when unaligned; Full flush clears hash chains and dictionary size after a successful block; markers are emitted only with all input consumed, lookahead empty and nothing pending; flush conversions are total and value preserving; exits of the deflate() driver loop. NOT decided: prefix decodability and independence of the post-flush remainder for all inputs."),
  "C13": ("path-sensitive decision tables on MIR",
